@@ -11,6 +11,7 @@ import (
 	gotoken "go/token"
 	"os"
 	"sort"
+	"strconv"
 	"strings"
 	"testing"
 )
@@ -87,6 +88,46 @@ func TestVerifDump(t *testing.T) {
 		})
 	}
 	out["tokenizeStreamConsts"] = consts
+	// inducedPhrases: a map literal inside scoreDiffs
+	if f, err := parser.ParseFile(fset, "scoring.go", nil, 0); err == nil {
+		ast.Inspect(f, func(n ast.Node) bool {
+			as, ok := n.(*ast.AssignStmt)
+			if !ok || len(as.Lhs) != 1 || len(as.Rhs) != 1 {
+				return true
+			}
+			if id, ok := as.Lhs[0].(*ast.Ident); !ok || id.Name != "inducedPhrases" {
+				return true
+			}
+			cl, ok := as.Rhs[0].(*ast.CompositeLit)
+			if !ok {
+				return true
+			}
+			ip := [][2]interface{}{}
+			for _, e := range cl.Elts {
+				kv, ok := e.(*ast.KeyValueExpr)
+				if !ok {
+					return false
+				}
+				k, ok1 := kv.Key.(*ast.BasicLit)
+				v, ok2 := kv.Value.(*ast.CompositeLit)
+				if !ok1 || !ok2 {
+					return false
+				}
+				ks, _ := strconv.Unquote(k.Value)
+				ps := []string{}
+				for _, pe := range v.Elts {
+					if pl, ok := pe.(*ast.BasicLit); ok {
+						s, _ := strconv.Unquote(pl.Value)
+						ps = append(ps, s)
+					}
+				}
+				ip = append(ip, [2]interface{}{ks, ps})
+			}
+			sort.Slice(ip, func(i, j int) bool { return ip[i][0].(string) < ip[j][0].(string) })
+			out["inducedPhrases"] = ip
+			return false
+		})
+	}
 	b, _ := json.MarshalIndent(out, "", " ")
 	if err := os.WriteFile(os.Getenv("VERIF_OUT")+"/tables.json", b, 0o644); err != nil {
 		t.Fatal(err)
